@@ -294,9 +294,9 @@ def ivgrid_small(cl):
 
 def ivgrid_mid(cl):
     """thorough tier, Counter.new layouts: start, carry out of the low byte / the low two bytes at the 8-block
-    look-ahead, carry into and out of the top byte, wrap through zero after 1, 9 and 17 blocks"""
+    look-ahead, carry into and out of the top byte, wrap through zero after 1, 8 and 9 blocks"""
     top = 1 << (8 * cl)
-    s = {0, 0xF8 if cl > 1 else 0xF7, top - 1, top - 9, top - 17}
+    s = {0, 0xF8 if cl > 1 else 0xF7, top - 1, top - 8, top - 9}
     if cl > 1:
         s |= {(1 << (8 * (cl - 1))) - 1, (1 << (8 * (cl - 1))) - 9}
     if cl > 2:
@@ -447,9 +447,16 @@ def classic_cfgs(c, klen, eff, vc, seed, group):
                 yield dict(base, mode="CTR", ctr={"kind": "nonce", "nl": nl, "iv": iv, "ivdefault": True})
             yield dict(base, mode="CTR", ctr={"kind": "nonce", "nl": nl, "iv": (1 << (8 * (bs - nl))) - 9,
                                               "ivbytes": True})
+    elif group == "ctrnd":
+        for nl in range(0, bs):
+            for iv in ivgrid(bs - nl):
+                yield dict(base, mode="CTR", ctr={"kind": "nonce", "nl": nl, "iv": iv, "ivdefault": True})
+                if iv == 0:            # initial_value=0 passed explicitly (above: left to its default)
+                    yield dict(base, mode="CTR", ctr={"kind": "nonce", "nl": nl, "iv": iv})
+                yield dict(base, mode="CTR", ctr={"kind": "nonce", "nl": nl, "iv": iv, "ivbytes": True})
     elif group[:5] in ("ctrc0", "ctrc1", "ctrd0", "ctrd1"):
-        # ctrc*: 3 initial values per layout (quick); ctrd*: the 8-value grid (thorough); "ctrd0/i/n" = the counter
-        # lengths cl with cl % n == i (shard split, same enumeration)
+        # ctrc*: 3 initial values per layout (quick); ctrd*: the 8-value grid ivgrid_mid() (thorough); "ctrd0/i/n" = the
+        # counter lengths cl with cl % n == i (shard split, same enumeration)
         le = group[4] == "1"
         grid = ivgrid_mid if group[3] == "d" else ivgrid_small
         sub = group.split("/")
@@ -485,9 +492,25 @@ def aead_inputs(cfg):
     return key, nonce, aad, val(vc, "msg", cfg["L"], seed)
 
 
+# GCM and EAX tags of every length are prefixes of the full tag (SP 800-38D 7.1 MSB_t; EAX: first tau bytes) and the
+# reference models compute them exactly like that (canaries() re-checks it on every run).  The thorough tier walks all
+# tag lengths for each (key, nonce, AAD, message): with the memo switched on (thorough workers only; never in replay)
+# the reference is evaluated once per input with the full tag length and truncated here.
+_REF_MEMO = None          # dict when enabled
+
+
 def aead_ref(cfg, key, nonce, aad, pt):
     c, mode = cfg["c"], cfg["mode"]
     tl = cfg.get("tl")
+    if _REF_MEMO is not None and mode in ("GCM", "EAX"):
+        mk = (mode, c, cfg.get("eff"), key, nonce, aad, pt)
+        r = _REF_MEMO.get(mk)
+        if r is None:
+            if len(_REF_MEMO) > 400:
+                _REF_MEMO.clear()
+            R = ref_cipher(c, key, cfg.get("eff"))
+            r = _REF_MEMO[mk] = (M.gcm_encrypt if mode == "GCM" else M.eax_encrypt)(R, nonce, aad, pt, R.block_size)
+        return r[0], r[1][:tl]
     if mode == "CHAPOLY":
         return M.chacha20_poly1305_encrypt(key, nonce, aad, pt)
     if mode == "SIV":
@@ -582,7 +605,7 @@ def check_aead(cfg, acc):
     if back != pt:
         _viol(acc, cfg, "decrypt", "%s: decrypt_and_verify(specification ciphertext) = %s" % (desc, short(back)))
     acc.count("bytes_compared", 2 * L + len(exp_tag))
-    if L >= HUGE or (isinstance(cfg["aad"], int) and cfg["aad"] >= HUGE):
+    if L >= HUGE or max(cfg["aad"] if isinstance(cfg["aad"], list) else [cfg["aad"]], default=0) >= HUGE:
         acc.count("huge_cases")
     if L in (17, 33) and cfg.get("tl") in (None, 16, 8) and cfg["aad"]:
         acc.sample({"part": "aead", "cipher": c, "mode": mode, "key": key, "nonce": nonce, "aad": aad if isinstance(aad, bytes) else list(aad),
@@ -1065,8 +1088,6 @@ def classic_keys(quick):
     out += [("Blowfish", k, None) for k in (4, 16, 56)] + [("CAST", k, None) for k in (5, 10, 11, 16)]
     out += [("ARC2", 5, None), ("ARC2", 16, None), ("ARC2", 128, None), ("ARC2", 8, 64), ("ARC2", 16, 40), ("ARC2", 16, 129)]
     out += [("AES", 16, "noaesni"), ("AES", 32, "noaesni")]
-    if not quick:
-        out += [("AES", 24, "noaesni")]
     return out
 
 
@@ -1088,9 +1109,13 @@ def big_configs():
     """thorough tier, multi-kilobyte part: (prefix-closed configurations, per-length configurations)"""
     pc = []                                                   # one reference run at the largest length, every length checked
     for (c, klen) in (("AES", 16), ("AES", 24), ("AES", 32), ("DES", 8), ("DES3", 16), ("DES3", 24), ("Blowfish", 16),
-                      ("Blowfish", 56), ("CAST", 16), ("CAST", 5), ("ARC2", 16), ("ARC2", 128)):
+                      ("CAST", 16), ("ARC2", 16)):
         for m in ("ECB", "CBC", "CFB", "CFBmid", "CFB128", "OFB", "CTR", "CTRle", "OPENPGP"):
             pc.append(("classic", c, klen, m))
+    for (c, klen) in (("AES", 16), ("DES3", 24)):
+        for seg in range(8, 8 * BS[c] + 1, 8):
+            if seg not in (8, 4 * BS[c], 8 * BS[c]):
+                pc.append(("classic", c, klen, "CFBs%d" % seg))
     pc += [("stream", "ChaCha20", 32, 8), ("stream", "ChaCha20", 32, 12), ("stream", "ChaCha20", 32, 24),
            ("stream", "Salsa20", 32, None), ("stream", "Salsa20", 16, None), ("stream", "ARC4", 16, None),
            ("stream", "ARC4", 5, None), ("stream", "ARC4", 256, None)]
@@ -1129,15 +1154,14 @@ def plan(quick, seed):
             if eff is not None:
                 S.append((2, ("classic", c, klen, eff, vc, "basic", "all" if quick else "deep")))
             # (b) CTR with nonce= / initial_value=
-            S.append((12 if BS[c] == 16 else 3, ("classic", c, klen, eff, vc, "ctrn", "all" if quick else "deep")))
+            S.append((12 if BS[c] == 16 else 3, ("classic", c, klen, eff, vc, "ctrn", "all")) if quick else
+                     (55 if BS[c] == 16 else 21, ("classic", c, klen, eff, vc, "ctrnd", "deep")))
             # (c) CTR with Counter.new layouts
-            if not quick:          # 8 initial values per layout, every length 0..16 blocks+1; AES split in 4 shards
+            if not quick:          # 8 initial values per layout, every length 0..16 blocks+1; shards split
                 for g in ("ctrd0", "ctrd1"):
-                    if BS[c] == 16:
-                        for i in range(4):
-                            S.append((30, ("classic", c, klen, eff, vc, "%s/%d/4" % (g, i), "deep")))
-                    else:
-                        S.append((28, ("classic", c, klen, eff, vc, g, "deep")))
+                    n = 4 if BS[c] == 16 else 2
+                    for i in range(n):
+                        S.append((35 if BS[c] == 16 else 15, ("classic", c, klen, eff, vc, "%s/%d/%d" % (g, i, n), "deep")))
                 continue
             full = ((c, klen) in (("AES", 16), ("DES3", 24)) and vc == "seed")
             for g in ("ctrc0", "ctrc1"):
@@ -1155,7 +1179,7 @@ def plan(quick, seed):
             for nl in range(1, 16):
                 S.append((8, ("aead", "OCB", "AES", klen, nl, vc)))
             for nl in siv_nonce_lens(quick):
-                S.append((3, ("aead", "SIV", "AES", 2 * klen, nl, vc)))
+                S.append((3 if quick else 14, ("aead", "SIV", "AES", 2 * klen, nl, vc)))
     for vc in (("seed", "zero") if quick else VCLS):
         for nl in (8, 12, 24):
             S.append((2, ("aead", "CHAPOLY", "ChaCha20", 32, nl, vc)))
@@ -1172,12 +1196,13 @@ def plan(quick, seed):
     for vc in (("seed",) if quick else VCLS):
         for klen in ((16,) if quick else (16, 24, 32)):
             for mode in ("GCM", "CCM", "EAX", "OCB", "SIV"):
-                S.append((12, ("aeadlen", mode, "AES", 2 * klen if mode == "SIV" else klen, vc)))
+                S.append((12 if quick else (60 if mode == "SIV" else 45),
+                          ("aeadlen", mode, "AES", 2 * klen if mode == "SIV" else klen, vc)))
         S.append((8 if quick else 40, ("aeadlen", "CHAPOLY", "ChaCha20", 32, vc)))
-        S.append((8 if quick else 30, ("aeadlen", "EAX", "DES3", 24, vc)))
+        S.append((8 if quick else 90, ("aeadlen", "EAX", "DES3", 24, vc)))
         if not quick:
             for (c, klen) in (("DES3", 16), ("DES", 8), ("Blowfish", 16), ("CAST", 16), ("ARC2", 16)):
-                S.append((20, ("aeadlen", "EAX", c, klen, vc)))
+                S.append((90 if c == "DES3" else 50, ("aeadlen", "EAX", c, klen, vc)))
     # ---- OCB: all 256 values of the last nonce byte; CCM AAD header boundary; SIV component count; counter wraps
     for vc in (("seed",) if quick else VCLS):
         for klen in ((16,) if quick else (16, 24, 32)):
@@ -1189,8 +1214,8 @@ def plan(quick, seed):
         else:
             for klen in (16, 24, 32):
                 for v in CCM_VARIANTS:
-                    S.append((25, ("ccmhdr", klen, vc, v)))
-                S.append((6, ("sivmany", 2 * klen, vc)))
+                    S.append((17, ("ccmhdr", klen, vc, v)))
+                S.append((24, ("sivmany", 2 * klen, vc)))
         crk = (("AES", 16), ("AES", 32), ("DES3", 24), ("Blowfish", 16))
         if not quick:
             crk += (("AES", 24), ("DES3", 16), ("DES", 8), ("CAST", 16), ("ARC2", 16))
@@ -1210,8 +1235,8 @@ def plan(quick, seed):
             if quick:
                 S.append((8, ("kw", klen, vc)))
             else:
-                for i in range(8):
-                    S.append((10, ("kw", klen, vc, i, 8)))
+                for i in range(16):
+                    S.append((20, ("kw", klen, vc, i, 16)))
     # ---- library-chosen IV / nonce
     for vc in VCLS:
         S.append((3, ("auto", vc)))
@@ -1240,8 +1265,8 @@ def plan(quick, seed):
         for b in pc:
             for vc in VCLS:
                 huge = vc == "seed" and b[1:3] in (("AES", 16), ("ChaCha20", 32), ("Salsa20", 32), ("ARC4", 16)) \
-                    and b[3] not in ("CFB", "CFBmid")
-                S.append(((60 if huge else 25) + (40 if b[3] in ("CFB", "CFBmid") else 0), ("bigp",) + b + (vc, huge)))
+                    and (str(b[3])[:3] != "CFB" or b[3] == "CFB128")
+                S.append(((60 if huge else 25) + (40 if str(b[3])[:3] == "CFB" else 0), ("bigp",) + b + (vc, huge)))
         for b in pl:
             ls = BIG_DEEP
             if b[3] == "KW":                                  # multiples of 8 only: the two nearest of each size
@@ -1291,7 +1316,7 @@ def cases_of(shard, quick, seed):
         ls = {"all": lens_all, "deep": lens_deep, "few": lens_few}[lsel](BS[c])
         for cfg in classic_cfgs(c, klen, eff, vc, seed, group):
             yield ("classic", cfg, ls)
-        if group == "ctrn":
+        if group in ("ctrn", "ctrnd"):
             # a one-byte counter used for its full cycle of 256 blocks (wrapping through zero): legal, nothing repeats
             bs = BS[c]
             base = {"part": "classic", "c": c, "klen": klen, "eff": eff, "vc": vc, "seed": seed, "mode": "CTR"}
@@ -1309,16 +1334,16 @@ def cases_of(shard, quick, seed):
     elif kind == "ocb256":
         _, klen, nl, vc = shard
         for last in range(256):
-            for tl in ((16, 12) if quick else (16, 12, 8)):
+            for tl in (16, 12):
                 for (a, L) in ((0, 33), (17, 16)):
                     yield ("aead", {"part": "aead", "c": "AES", "klen": klen, "vc": vc, "seed": seed, "mode": "OCB",
                                     "nl": nl, "tl": tl, "aad": a, "L": L, "last": last})
     elif kind == "ccmhdr":
         klen, vc = shard[1], shard[2]
-        deep = len(shard) > 3          # thorough: one shard per declaration variant, 7 AAD lengths, 3 (nonce, tag, message)
+        deep = len(shard) > 3          # thorough: one shard per declaration variant, 7 AAD lengths
         for a in ((0xFEFE, 0xFEFF, 0xFF00, 0xFF01, 0xFFFF, 0x10000, 0x10001) if deep else (0xFEFF, 0xFF00, 0xFF01, 0x10000)):
             for v in ((shard[3],) if deep else ("auto", "declared")):
-                for (nl, tl, L) in (((11, 16, 17), (13, 4, 0), (7, 10, 1)) if deep else ((11, 16, 17), (13, 4, 0))):
+                for (nl, tl, L) in ((11, 16, 17), (13, 4, 0)):
                     yield ("aead", {"part": "aead", "c": "AES", "klen": klen, "vc": vc, "seed": seed, "mode": "CCM",
                                     "nl": nl, "tl": tl, "aad": a, "L": L, "ccm": v})
     elif kind == "sivmany":
@@ -1397,9 +1422,9 @@ def cases_of(shard, quick, seed):
         klen, vc = shard[1], shard[2]
         kwl = list(range(16, 8 * 46 + 1, 8)) + [512, 1024]
         kwpl = list(range(1, 42)) + [63, 64, 65, 255, 256, 257, 343, 344, 345, 1025]
-        if not quick:      # every legal KW payload up to 1024 bytes, every KWP payload up to 520 bytes
-            kwl = list(range(16, 1025, 8)) + [2040, 2048, 2056]
-            kwpl = list(range(1, 521)) + [1023, 1024, 1025, 2047, 2048, 2049]
+        if not quick:      # every legal KW payload up to 2048 bytes, every KWP payload up to 520 bytes
+            kwl = list(range(16, 2049, 8)) + [4088, 4096, 4104]
+            kwpl = list(range(1, 521)) + [1023, 1024, 1025, 2047, 2048, 2049, 4095, 4096, 4097]
         todo = [("KW", L) for L in kwl] + [("KWP", L) for L in kwpl]
         if len(shard) > 3:             # thorough: the same list dealt out over shard[4] shards
             todo.sort(key=lambda t: -t[1])
@@ -1444,7 +1469,8 @@ def cases_of(shard, quick, seed):
             bs = BS[c]
             cfg = {"part": "classic", "c": c, "klen": klen, "eff": None, "vc": vc, "seed": seed, "mode": mode}
             if mode[:3] == "CFB":
-                cfg.update(mode="CFB", seg={"CFB": 8, "CFBmid": 4 * bs, "CFB128": 8 * bs}[mode])
+                cfg.update(mode="CFB", seg=int(mode[4:]) if mode[:4] == "CFBs" else
+                           {"CFB": 8, "CFBmid": 4 * bs, "CFB128": 8 * bs}[mode])
             elif mode == "CTR":
                 cfg["ctr"] = {"kind": "nonce", "nl": bs // 2, "iv": 0xF1}
             elif mode == "CTRle":      # little-endian counter in the middle of the block, carries out of 3 bytes inside
@@ -1518,7 +1544,9 @@ SAMPLE_SHARDS = (("classic", "AES", 16, None, "seed", "basic", "all"), ("aead", 
 
 
 def worker(arg):
+    global _REF_MEMO
     shard, quick, seed = arg
+    _REF_MEMO = None if quick else {}
     acc = Acc()
     acc.MAX_SAMPLES = 1 if shard in SAMPLE_SHARDS else 0
     t0 = time.time()
@@ -1550,6 +1578,14 @@ def canaries(acc):
     a, b = M.ocb_encrypt(R, asc(12, 0), b"", pt)[0], M.ocb_encrypt(R, asc(11, 0) + b"\x4b", b"", pt)[0]
     if a == b:
         acc.error("canary: OCB bottom bits do not influence the reference")
+    # the reference memo of aead_ref (thorough tier) relies on: shorter GCM / EAX tags are prefixes of the full tag
+    R8 = ref_cipher("DES3", key_for("DES3", 24, "asc", 0))
+    for (f, Rx, tls) in ((M.gcm_encrypt, R, range(4, 17)), (M.eax_encrypt, R, range(2, 17)), (M.eax_encrypt, R8, range(2, 9))):
+        n_ = asc(Rx.block_size + 1, 5)
+        full = f(Rx, n_, asc(3, 1), pt, Rx.block_size)
+        for tl in tls:
+            if f(Rx, n_, asc(3, 1), pt, tl) != (full[0], full[1][:tl]) or len(full[1]) != Rx.block_size:
+                acc.error("canary: reference %s tag of %d bytes is not the prefix of the full tag" % (f.__name__, tl))
 
 
 def run(ctx):
@@ -1576,21 +1612,68 @@ def run(ctx):
     n = a.n.get
 
     # ---- vacuity guards ----------------------------------------------------
-    pairs = set((t[1], t[4]) for t in a.distinct.get("classes", ()) if t[0] == "classic")
+    classes = a.distinct.get("classes", ())
+    pairs, apairs, kwm, strm = set(), set(), set(), set()
+    ccmv, eaxeff, ctrbytes, layouts, aead65, sivn, ocbb, rc2eff, seek2, seek3 = (set() for _ in range(10))
+    for t in classes:
+        k = t[0]
+        if k == "classic":
+            pairs.add((t[1], t[4]))
+            if t[4] == "CTR" and t[1] == "AES" and t[2] == 16 and t[3] is None:
+                if t[5][0] == "n" and t[5][3]:
+                    ctrbytes.add(t[5][1:3])
+                elif t[5][0] == "c":
+                    layouts.add(t[5][1:])
+        elif k == "aead":
+            apairs.add((t[1], t[3]))
+            sig = t[4]
+            if t[3] == "CCM":
+                ccmv.add(sig[3])
+            elif t[3] == "EAX" and len(sig) > 6:
+                eaxeff.add((t[1], t[2], sig[6]))
+            elif t[3] == "SIV":
+                sivn.add(len(sig[2]))
+            elif t[3] == "OCB" and sig[4]:          # bottom 1..63 (bottom 0 and "last byte not forced" share a class)
+                ocbb.add((sig[0], sig[4]))
+            if t[5][:3] == "65+":
+                aead65.add(t[3])
+        elif k == "kw":
+            kwm.add(t[1])
+        elif k == "stream":
+            strm.add(t[1])
+            if t[1] == "ChaCha20" and len(t[3]) == 4:
+                (seek3 if isinstance(t[3][3], tuple) else seek2).add((t[3][0], t[3][3], t[3][1]))
+        elif k == "block" and t[1] == "ARC2":
+            rc2eff.add(t[3])
     for c in BS:
         for m in CLASSIC_MODES:
             ctx.require((c, m) in pairs, "no case executed for %s-%s" % (c, m))
-    apairs = set((t[1], t[3]) for t in a.distinct.get("classes", ()) if t[0] == "aead")
     for m in ("GCM", "CCM", "EAX", "OCB", "SIV"):
         ctx.require(("AES", m) in apairs, "no case executed for AES-%s" % m)
-    ctx.require(("DES3", "EAX") in apairs and ("ChaCha20", "CHAPOLY") in apairs, "EAX on 3DES / ChaCha20-Poly1305 not executed")
-    ctx.require(set(t[1] for t in a.distinct.get("classes", ()) if t[0] == "kw") == {"KW", "KWP"}, "KW/KWP not executed")
-    ctx.require(set(t[1] for t in a.distinct.get("classes", ()) if t[0] == "stream") == {"ARC4", "Salsa20", "ChaCha20"},
-                "a stream cipher was not executed")
+        ctx.require(m in aead65, "no message of more than 65 blocks for %s" % m)
+    for c in BS:
+        ctx.require((c, "EAX") in apairs, "EAX on %s not executed" % c)
+    ctx.require(("ChaCha20", "CHAPOLY") in apairs, "ChaCha20-Poly1305 not executed")
+    ctx.require(kwm == {"KW", "KWP"}, "KW/KWP not executed")
+    ctx.require(strm == {"ARC4", "Salsa20", "ChaCha20"}, "a stream cipher was not executed")
+    ctx.require(ccmv == set(CCM_VARIANTS), "CCM length-declaration variants seen: %r" % sorted(ccmv))
+    # the new dimensions of each tier must really have been walked (numbers: what the grids must produce at least)
+    ctx.require(len(ctrbytes) >= (16 if q else 181), "CTR initial_value in bytes form: only %d (nonce length, value class) pairs" % len(ctrbytes))
+    ctx.require(len(layouts) >= (784 if q else 1780), "Counter.new layouts x initial values on AES-128: only %d" % len(layouts))
+    ctx.require(len(ocbb) == (3 if q else 15) * 63, "OCB (nonce length, non-zero bottom) pairs: %d" % len(ocbb))
+    ctx.require(len(rc2eff) == (len(RC2_EFF) if q else len(RC2_EFF_ALL)), "RC2 effective key lengths seen: %d" % len(rc2eff))
+    ctx.require(len(seek2) >= (54 if q else 216), "ChaCha20 two-seek histories: %d" % len(seek2))
+    if not q:
+        ctx.require("CHAPOLY" in aead65, "no ChaCha20-Poly1305 message of more than 65 blocks")
+        ctx.require(eaxeff == {("ARC2", 8, 64), ("ARC2", 16, 40), ("ARC2", 16, 129)}, "EAX with RC2 effective_keylen: %r" % sorted(eaxeff))
+        ctx.require(sivn >= set(range(127)), "SIV: not every AD component count 0..126 was executed")
+        ctx.require(len(seek3) >= 150, "ChaCha20 three-seek histories: %d" % len(seek3))
+        ctx.require(n("huge_cases", 0) >= 48, "only %d cases with a message / AAD of 2^20 bytes or more" % n("huge_cases", 0))
     # planned grid sizes (measured on a complete run; the grids are seed-independent) minus a 3 % margin
-    mins = {"block_cases": 32000 if q else 64000, "classic_cases": 990000 if q else 4500000,
-            "aead_cases": 90000 if q else 610000, "stream_cases": 83000 if q else 166000,
-            "kw_cases": 570 if q else 1170, "auto_cases": 730, "des3key_cases": 22700, "kat_cases": 10}
+    mins = {"block_cases": 32000 if q else 474000, "classic_cases": 990000 if q else 19400000,
+            "aead_cases": 90000 if q else 2290000, "stream_cases": 83000 if q else 2129000,
+            "kw_cases": 570 if q else 9440, "auto_cases": 730 if q else 6200, "des3key_cases": 22700 if q else 78000,
+            "kat_cases": 10}
     for k, v in mins.items():
         ctx.require(n(k, 0) >= v, "%s = %d < %d: the grid was not fully executed" % (k, n(k, 0), v))
     ctx.require(n("bytes_compared", 0) > 10 ** 6, "fewer than 1 MB of output compared")
@@ -1600,66 +1683,114 @@ def run(ctx):
     ctx.require(n("tape_calls", 0) >= n("auto_cases", 0) > 0, "entropy tape not consulted for every library-chosen IV/nonce")
     al = a.distinct.get("auto_len", set())
     ctx.require(len(al) >= 14, "library-chosen IV/nonce: fewer than 14 (mode, block size, length) classes seen: %r" % sorted(al))
-    ctx.require(len(a.distinct.get("classes", ())) >= (148000 if q else 205000), "fewer distinct shape classes than the grid must produce")
+    ctx.require(len(classes) >= (148000 if q else 509000), "fewer distinct shape classes than the grid must produce")
     ctx.require(n("_shards", 0) == len(shards), "not every shard reported")
 
+    pcb, plb = big_configs()
     ctx.coverage_extra.update({
         "evaluations": n("evaluations", 0),
-        "distinct_nontrivial": len(a.distinct.get("classes", ())),
+        "distinct_nontrivial": len(classes),
         "exhaustive": not a.caps,
         "bytes_compared": n("bytes_compared", 0),
         "cases_per_part": {k[:-6]: n(k, 0) for k in mins},
+        "huge_cases": n("huge_cases", 0),
         "cpu_s_per_part": {k[5:]: round(v, 1) for k, v in a.n.items() if k.startswith("_cpu_") and len(k) > 6},
         "selftest_s": round(t_self, 1),
         "shards": len(shards),
         "grid": {
             "value_alphabet": "zero, ones, ascending, SHAKE256(seed) applied jointly to key/IV/nonce/AAD/message; "
                               + ("quick: {asc,seed} for block/classic/stream/kw, {seed,zero} AEAD on AES-128, {seed} on "
-                                 "AES-192/256 and for the every-length and special grids" if q else "all 4 everywhere"),
+                                 "AES-192/256 and for the every-length and special grids" if q else
+                                 "all 4 everywhere except multi-kilobyte KW/KWP ({seed,ones}) and the 2^17 / 2^20 lengths ({seed})"),
             "block": "ECB over 4 block values x every legal key length: AES 16/24/32 (also use_aesni=False), DES, "
                      "3DES 16/24, Blowfish 4..56 all, CAST 5..16 all (RFC 2144 vectors, inversion, key-padding rule), "
-                     "RC2 key lengths 5..128 all x effective_keylen {40..1024 step 8} + {41,47,57,63,65,127,129,1017,1023} "
-                     "against the RFC 2268 model",
+                     "RC2 key lengths 5..128 all x effective_keylen %s against the RFC 2268 model"
+                     % ("{40..1024 step 8} + {41,47,57,63,65,127,129,1017,1023}" if q else "40..1024 ALL (985 values)"),
+            "message_lengths": ("'all lengths' = 0..8*block+1 all + {16b-1,16b,16b+1,24b,24b+1}" if q else
+                                "'all lengths' = 0..16*block+1 all + {24b-1,24b,24b+1,32b-1,32b,32b+1}"),
             "classic_basic": "for EVERY legal key length of AES, DES, 3DES, Blowfish, CAST, RC2: ECB, CBC (every block multiple), "
-                             "CFB segment_size 8..8*block step 8 (all), OFB, OpenPGP x message length 0..8*block+1 all + "
-                             "{16b-1,16b,16b+1,24b,24b+1}",
+                             "CFB segment_size 8..8*block step 8 (all), OFB, OpenPGP x all lengths (see message_lengths)",
             "ctr_keys": ["%s-%d%s" % (c, 8 * k, "" if e is None else "/%s" % e) for c, k, e in classic_keys(q)],
             "ctr_nonce": "per ctr_key: nonce length 0..block-1 (all) x initial values {0,1,f7,f8,ff,2^w-1,2^w-8,2^w-9,2^w-17,"
-                         "2^(w-8)-1,2^(w-8)-9,fff8,7fffffff} (int; one bytes form) x all message lengths (as above)",
+                         "2^(w-8)-1,2^(w-8)-9,fff8,7fffffff} x all lengths; initial_value passed as "
+                         + ("int (one value also as bytes)" if q else
+                            "int AND as bytes for every value (0 also left to its default)")
+                         + "; a 1-byte counter used for its full 256-block cycle",
             "ctr_counter_layouts": "Counter.new: every (prefix,counter,suffix) split of the block x big/little endian x initial "
-                                   "values {0, 2^w-9, f8}; " + ("quick: all message lengths for AES-128 and 3DES-192 (seed), 10 "
-                                                                "boundary lengths for the other ctr_keys" if q else
-                                                                "all message lengths for every ctr_key"),
-            "aead": "GCM nonce lengths %s x mac_len 4..16; CCM nonce 7..13 x mac_len {4,6,..,16} x {lengths declared, not "
-                    "declared}; EAX nonce %s (AES) / %s (DES, 3DES-128/192, Blowfish, CAST, RC2) x mac_len 2..block; OCB nonce "
-                    "1..15 x mac_len 8..16; SIV (256/384/512-bit keys) nonce %s x 8 AD vectors (0-3 components incl. an empty "
-                    "one); ChaCha20-Poly1305 nonce {8,12,24}; each x AAD {0,1,b-1,b,b+1,2b+1} x message {0,1,b-1,b,b+1,2b,2b+1}; "
+                                   "values " + ("{0, 2^w-9, f8}; quick: all lengths for AES-128 and 3DES-192 (seed), 10 "
+                                                "boundary lengths for the other ctr_keys" if q else
+                                                "{0,f8,fff8,2^(w-8)-9,2^(w-8)-1,2^w-9,2^w-8,2^w-1}; all lengths for "
+                                                "every ctr_key"),
+            "aead": "GCM nonce lengths %s x mac_len 4..16; CCM nonce 7..13 x mac_len {4,6,..,16} x %s; "
+                    "EAX nonce %s (AES) / %s (%s) x mac_len 2..block; OCB nonce "
+                    "1..15 x mac_len 8..16; SIV (256/384/512-bit keys) nonce %s x %s; ChaCha20-Poly1305 nonce {8,12,24} x AAD %s "
+                    "x message %s; each (other mode) x AAD {0,1,b-1,b,b+1,2b+1%s} x message {0,1,b-1,b,b+1,2b,2b+1%s}; "
                     "AES-128/192/256"
-                    % (list(gcm_nonce_lens(q)), list(eax_nonce_lens(q, 16)), list(eax_nonce_lens(q, 8)),
-                       list(siv_nonce_lens(q))),
-            "aead_all_lengths": "message length 0..8*block+1 all (+16/24 blocks) x AAD {0,17} x two nonce lengths for GCM, CCM, "
-                                "EAX, OCB, SIV (AES-%s), EAX-3DES, ChaCha20-Poly1305 (block 64, nonce 8/12/24); CCM msg_len-only "
-                                "/ assoc_len-only declarations" % ("128" if q else "128/192/256"),
-            "special": "OCB all 256 last-nonce-byte values x nonce length {1,12,15} x mac_len {16,12}; CCM AAD lengths "
-                       "{0xFEFF,0xFF00,0xFF01,0x10000}; SIV with 126 / 125+nonce components; GCM 16-byte nonces solved so that "
-                       "J0 ends in ffffffff/fe/fd/f7/f6/7fffffff/ffff (inc32 wrap); EAX nonces (AES, 3DES, Blowfish) solved so "
-                       "that the counter starts at 2^n-{1,2,3,8,9,10}",
-            "stream": "RC4 key length 1..256 all x drop {none,3072} (boundary key lengths: {none,0,1,255,256,257,768,3072}) x "
-                      "length 0..65 all + {255..257,511..513}; Salsa20 16/32 and ChaCha20 nonce 8/12/24 x length 0..513 all "
-                      "+ {1023..1025,1536,1537}; ChaCha20.seek at 11 positions + around block 2^32 (8-byte nonce: carry into the high "
-                      "counter word; 12/24-byte nonce: up to block 2^32-2, last block observed only)",
-            "kw": "KW payload 16..368 step 8 all + {512,1024}; KWP payload 1..41 all + {63..65,255..257,343..345,1025}; AES 128/192/256",
-            "auto": "library-chosen IV/nonce via tape (4 value classes) for CBC/CFB/OFB/OpenPGP/EAX on all 6 block ciphers, "
-                    "CTR/GCM/CCM/OCB on AES, ChaCha20, Salsa20, ChaCha20-Poly1305; decrypted by the reference from cipher.iv/nonce only",
-            "des3key": "adjust_key_parity + DES3.new: all 256 values at every byte position of 2 base keys per key length; "
-                       "K1=K2 / K2=K3 / K1=K2=K3 / K1=K3 under all 256 parity-bit masks; all 64 one-bit neighbours of a degenerate key",
+                    % (list(gcm_nonce_lens(q)),
+                       "{lengths declared, not declared}" if q else "{lengths declared, not declared, only msg_len, only assoc_len}",
+                       list(eax_nonce_lens(q, 16)), list(eax_nonce_lens(q, 8)),
+                       "DES, 3DES-128/192, Blowfish-128, CAST-128, RC2-128" if q else
+                       "every 64-bit-block ctr_key incl. the RC2 effective_keylen variants",
+                       list(siv_nonce_lens(q)),
+                       "8 AD vectors (0-3 components incl. an empty one)" if q else
+                       "%d AD vectors: EVERY vector of 0..2 components with lengths in %s, of 3 components in %s, of 4 in %s"
+                       % (len(siv_ad_vectors(q)), list(SIV_AD1), list(SIV_AD3), list(SIV_AD4)),
+                       list(AAD_G if q else CHAPOLY_AAD_DEEP), list(CHAPOLY_MSG if q else CHAPOLY_MSG_DEEP),
+                       "" if q else ",8b-1,8b,8b+1", "" if q else ",8b-1,8b,8b+1"),
+            "aead_all_lengths": "all message lengths (see message_lengths) x AAD %s x %s nonce lengths for GCM, CCM, "
+                                "EAX, OCB, SIV (AES-%s), EAX on %s, ChaCha20-Poly1305 (block 64, nonce 8/12/24); every AAD "
+                                "length %s x message %s; CCM msg_len-only / assoc_len-only declarations"
+                                % ("{0,17}" if q else "{0,1,17}", "two" if q else "three",
+                                   "128" if q else "128/192/256", "3DES-192" if q else "DES, 3DES-128/192, Blowfish, CAST, RC2",
+                                   "0..129 + {255,256,257}" if q else "0..257 + {383..385,511..513}",
+                                   "{0,17}" if q else "{0,1,17}"),
+            "special": "OCB all 256 last-nonce-byte values x nonce length %s x mac_len %s x AES-%s; CCM AAD lengths %s "
+                       "(%s); SIV with %s; GCM 16-byte nonces solved so that J0 ends in %s (inc32 wrap / carry chains) on %s; "
+                       "EAX nonces (%s) solved so that the counter starts at 2^n-%s"
+                       % ("{1,12,15}" if q else "1..15 all", "{16,12}", "128" if q else "128/192/256",
+                          "{0xFEFF,0xFF00,0xFF01,0x10000}" if q else "{0xFEFE,0xFEFF,0xFF00,0xFF01,0xFFFF,0x10000,0x10001}",
+                          "AES-128, declared / not declared" if q else "AES-128/192/256, all 4 declaration variants",
+                          "126 / 125+nonce components" if q else "EVERY component count 0..126 (no nonce) and 0..125 (+nonce), 256/384/512-bit keys",
+                          ["%x" % v for v in (GCM_LOW if q else GCM_LOW_DEEP)], "AES-128/256" if q else "AES-128/192/256",
+                          "AES, 3DES, Blowfish" if q else "AES-128/192/256, 3DES-128/192, DES, Blowfish, CAST, RC2",
+                          "{1,2,3,8,9,10}" if q else "{1,2,3,7,8,9,10,16,17,18,257}"),
+            "stream": "RC4 key length 1..256 all x drop %s x length %s; Salsa20 16/32 and ChaCha20 nonce 8/12/24 x length %s; "
+                      "ChaCha20.seek at %d positions x %d lengths + around block 2^32 (8-byte nonce: carry into the high "
+                      "counter word; 12/24-byte nonce: up to block 2^32-2, last block observed only); seek histories on one "
+                      "object: all ordered pairs over %s positions%s"
+                      % ("{none,3072} (boundary key lengths: {none,0,1,255,256,257,768,3072})" if q else "{none,0,1,255,256,257,768,3072}",
+                         "0..65 all + {255..257,511..513}" if q else "0..257 all + {511..513,1023..1025}",
+                         "0..513 all + {1023..1025,1536,1537}" if q else "0..1025 all + {1535..1537,2047..2049}",
+                         11 if q else 28, 7 if q else 13, "3 (7 for the 8-byte nonce)" if q else "7 (12 for the 8-byte nonce)",
+                         "" if q else ", all triples (adjacent distinct) over 4 (5) positions"),
+            "kw": ("KW payload 16..368 step 8 all + {512,1024}; KWP payload 1..41 all + {63..65,255..257,343..345,1025}; AES 128/192/256"
+                   if q else
+                   "KW payload 16..2048 step 8 ALL + {4088,4096,4104}; KWP payload 1..520 ALL + {1023..1025,2047..2049,4095..4097}; AES 128/192/256"),
+            "auto": "library-chosen IV/nonce via tape (4 value classes) for CBC/CFB/OFB/OpenPGP/EAX on %s, "
+                    "CTR/GCM/CCM/OCB on AES, ChaCha20, Salsa20, ChaCha20-Poly1305; %s; decrypted by the reference from "
+                    "cipher.iv/nonce only"
+                    % ("all 6 block ciphers (7 keys)" if q else "every ctr_key and RC2-128/64 (%d keys)" % (1 + len(classic_keys(q))),
+                       "4 message lengths, AAD 5" if q else "8 message lengths x AAD {0,5,17} (AEAD modes)"),
+            "des3key": "adjust_key_parity + DES3.new: all 256 values at every byte position of %s base keys per key length; "
+                       "K1=K2 / K2=K3 / K1=K2=K3 / K1=K3 under all 256 parity-bit masks; all 64 one-bit neighbours of a degenerate "
+                       "key (%s seeds)"
+                       % ("2" if q else "7 (incl. all-zero, all-ones, K1=K2 and K2=K3 bases, where the byte decides about degeneracy)",
+                          2 if q else 6),
             "multi_kilobyte": ("lengths {1023,1024,1025,4095,4096,4097}: AES-128 CBC (nearest block multiples), CTR, CFB8, GCM "
                                "(also AAD of that size), CCM, EAX, OCB, AES-256-SIV; ChaCha20, Salsa20, RC4, ChaCha20-Poly1305"
                                if q else
-                               "lengths {1023,1024,1025,4095,4096,4097,65537} x {seed,ones}: AES-128 ECB/CBC (nearest block "
-                               "multiples) CFB8 CFB128 OFB CTR OpenPGP GCM(+AAD of that size) CCM EAX OCB, AES-256 CTR/GCM/SIV, "
-                               "3DES CBC/CTR, Blowfish CFB8, CAST OFB, RC2 CBC, ChaCha20, Salsa20, RC4, ChaCha20-Poly1305, KW, "
-                               "KWP; CCM 65535 bytes with a 13-byte nonce"),
+                               "lengths 2^k-1, 2^k, 2^k+1 for k=9..16 (24 lengths; ECB/CBC/KW: the nearest legal ones). "
+                               "All 4 value classes, every length against one reference run: %d classic configurations = "
+                               "{AES-128/192/256, DES, 3DES-128/192, Blowfish-128, CAST-128, RC2-128} x {ECB, CBC, "
+                               "CFB8, CFB(4*block), CFB(8*block), OFB, CTR (nonce), CTR (little-endian Counter inside the block), "
+                               "OpenPGP} + AES-128 and 3DES-192 CFB with EVERY other segment size; ChaCha20 (nonce 8/12/24), "
+                               "Salsa20-128/256, RC4-40/128/2048. One run per length, message of that size and AAD of that size: "
+                               "AES-128/192/256 GCM, CCM, EAX, OCB, AES-SIV-256/384/512, ChaCha20-Poly1305 (nonce 12/24), "
+                               "EAX on 3DES-192 and Blowfish-128; KW and KWP with AES-128/192/256 ({seed,ones}). "
+                               "Additionally 2^17-1..2^17+1 and 2^20-1..2^20+1 (seed): AES-128 ECB/CBC/CFB128/OFB/CTR/CTR-LE/"
+                               "OpenPGP/GCM/CCM/EAX/OCB, AES-256-SIV, ChaCha20 (3 nonce lengths), Salsa20-256, RC4-128, "
+                               "ChaCha20-Poly1305 (message and AAD). CCM with a 13-byte nonce: 65535 (AES-128) and 65534 (AES-256) bytes"
+                               % len([b for b in pcb if b[0] == "classic"])),
         },
     })
     ctx.assume("data values: only the 4-member value alphabet (zero, ones, ascending, SHAKE256(VERIF_SEED)) per shape, "
@@ -1667,8 +1798,8 @@ def run(ctx):
     ctx.assume("CAST-128: S-box contents are pinned only by the 3 RFC 2144 B.1 vectors, inversion, injectivity on 4 blocks "
                "and the key-padding rule; CAST modes are modelled over the library's own single-block ECB "
                "(the RFC 2144 B.2 million-iteration maintenance test is not run)")
-    ctx.assume("message lengths above 65537 bytes, CCM AAD >= 2^32 (10-byte header), GCM/CCM/ChaCha length limits and "
-               "counter exhaustion are not covered here (C11)")
+    ctx.assume("message lengths above %s bytes, CCM AAD >= 2^32 (10-byte header), GCM/CCM/ChaCha length limits and "
+               "counter exhaustion are not covered here (C11)" % ("65537" if q else "2^20+1 (2^16+1 for most configurations)"))
     ctx.assume("segmentation, output=, buffer types and call order are C09/C10; AES-NI vs portable and CLMUL vs portable "
                "GHASH beyond single ECB blocks are C16")
     ctx.assume("refusal of degenerate TDES keys is taken from the documentation of adjust_key_parity (the property text "
